@@ -12,19 +12,26 @@
 (* expiry itself (under the timer mutex, before it takes the call lock) and the callback leaves a recorded expiry alone.  Dev     *)
 (* "NoEntryCheck" is the code before that fix: the call looked at the expired flag only -- it could go through, or be taken by    *)
 (* the late callback for a call that was active when the deadline passed.                                                          *)
+(* One direction (read or write) of one adapter; one application goroutine makes calls in that direction (net.Conn allows more,   *)
+(* the byte-stream property is about one), any goroutine sets deadlines.  The call is modelled at the grain of the code          *)
+(* (netconn.go Read/Write): entry check under the timer mutex | forced call lock | the expired flag looked at once more inside   *)
+(* the lock | the I/O under the direction's context | deferred unlock -- one action each, because the callback and SetDeadline   *)
+(* interleave with every one of them, and because TraceDeadline.tla replays recorded executions through these very actions.      *)
 EXTENDS Integers, FiniteSets, TLC
-CONSTANTS Dev, MaxSets
-VARIABLES deadline,    \* the deadline in force: "none", "past" or "future"
+CONSTANTS Dev, MaxSets, MaxCalls
+VARIABLES deadline,    \* the deadline in force: "none", "past", "future" (will pass: Tick) or "far" (does not pass within the behaviour)
           armed,       \* the runtime timer is set and has not fired
           inflight,    \* callbacks started by the runtime that have not finished: a set of [id, pc]
           nextId, expired, cancelled, callLock, sets, tmu,
-          call,        \* the application's Read/Write: [pc |-> "idle" | "locked" | "done", late |-> it started after the deadline had passed]
-          res,         \* what the call returned: "none", "deadline", "ok", "cancelled"
+          call,        \* the application's Read/Write: [pc |-> "idle" | "entered" | "locked" | "checked" | "ret" | "done", late |-> it started
+                       \* after the deadline had passed, n |-> calls made so far]
+          res,         \* what the last call returned: "none", "deadline", "ok", "cancelled"
           badCancel    \* a callback cancelled the context of a call that had started AFTER the deadline passed
 vars == <<deadline, armed, inflight, nextId, expired, cancelled, callLock, sets, tmu, call, res, badCancel>>
 CALL == -1             \* holder id of the call lock when the application's call holds it
+Deadlines == {"none", "past", "future", "far"}
 Init == /\ deadline = "none" /\ armed = FALSE /\ inflight = {} /\ nextId = 1 /\ expired = FALSE /\ cancelled = FALSE
-        /\ callLock = 0 /\ sets = 0 /\ tmu = 0 /\ call = [pc |-> "idle", late |-> FALSE] /\ res = "none" /\ badCancel = FALSE
+        /\ callLock = 0 /\ sets = 0 /\ tmu = 0 /\ call = [pc |-> "idle", late |-> FALSE, n |-> 0] /\ res = "none" /\ badCancel = FALSE
 (* SetReadDeadline / SetWriteDeadline (under the timer mutex since the fix; the mutex is free whenever no callback is inside) *)
 SetDeadline(v) == /\ sets < MaxSets /\ sets' = sets + 1
                   /\ ("StaleExpiry" \in Dev \/ tmu = 0)
@@ -41,39 +48,60 @@ Tick == /\ deadline = "future" /\ deadline' = "past"
 CbEnter(c) == /\ c.pc = "start" /\ ("NoTimerMutex" \in Dev \/ tmu = 0) /\ tmu' = c.id
               /\ inflight' = (inflight \ {c}) \cup {[c EXCEPT !.pc = "check"]}
               /\ UNCHANGED <<deadline, armed, nextId, expired, cancelled, callLock, sets, call, res, badCancel>>
-CbCheck(c) == /\ c.pc = "check"
-              /\ IF ("StaleExpiry" \notin Dev /\ deadline # "past") \/ ("NoEntryCheck" \notin Dev /\ expired)   \* stale, or already recorded
-                   THEN /\ inflight' = inflight \ {c} /\ tmu' = 0
-                        /\ armed' = (deadline = "future")                 \* a deadline still ahead is re-armed
-                        /\ UNCHANGED <<deadline, nextId, expired, cancelled, callLock, sets, call, res, badCancel>>
-                   ELSE /\ IF callLock = 0
-                             THEN callLock' = c.id /\ inflight' = (inflight \ {c}) \cup {[c EXCEPT !.pc = "mark"]} /\ UNCHANGED <<cancelled, badCancel>>
-                             ELSE /\ cancelled' = TRUE /\ inflight' = inflight \ {c} /\ UNCHANGED callLock   \* "an active call": cancel its context
-                                  /\ badCancel' = (badCancel \/ callLock # CALL \/ call.late)
-                        /\ tmu' = (IF callLock = 0 THEN tmu ELSE 0)
-                        /\ UNCHANGED <<deadline, armed, nextId, expired, sets, call, res>>
+CbStaleCond == ("StaleExpiry" \notin Dev /\ deadline # "past") \/ ("NoEntryCheck" \notin Dev /\ expired)   \* stale, or already recorded
+CbStale(c) == /\ c.pc = "check" /\ CbStaleCond
+              /\ inflight' = inflight \ {c} /\ tmu' = 0
+              /\ armed' = IF deadline \in {"future", "far"} THEN TRUE ELSE armed     \* a deadline still ahead is re-armed
+              /\ UNCHANGED <<deadline, nextId, expired, cancelled, callLock, sets, call, res, badCancel>>
+CbIdle(c) == /\ c.pc = "check" /\ ~CbStaleCond /\ callLock = 0
+             /\ callLock' = c.id /\ inflight' = (inflight \ {c}) \cup {[c EXCEPT !.pc = "mark"]}
+             /\ UNCHANGED <<deadline, armed, nextId, expired, cancelled, sets, tmu, call, res, badCancel>>
+CbActive(c) == /\ c.pc = "check" /\ ~CbStaleCond /\ callLock # 0
+               /\ cancelled' = TRUE /\ inflight' = inflight \ {c} /\ tmu' = 0         \* "an active call": cancel its context
+               /\ badCancel' = (badCancel \/ callLock # CALL \/ call.late)
+               /\ UNCHANGED <<deadline, armed, nextId, expired, callLock, sets, call, res>>
+CbCheck(c) == CbStale(c) \/ CbIdle(c) \/ CbActive(c)
 CbMark(c) == /\ c.pc = "mark" /\ expired' = TRUE /\ callLock' = 0 /\ tmu' = 0 /\ inflight' = inflight \ {c}
              /\ UNCHANGED <<deadline, armed, nextId, cancelled, sets, call, res, badCancel>>
-(* the application's call.  CallStart: the entry check (since 939807d: under the timer mutex the deadline in force is compared    *)
-(* with the clock and a passed one is recorded -- timer stopped, expired set) and, if the call may proceed, the forced call lock   *)
-CallStart == /\ call.pc = "idle" /\ tmu = 0
+(* the application's call.  CallEntry: the entry check (since 939807d: under the timer mutex the deadline in force is compared    *)
+(* with the clock and a passed one is recorded -- timer stopped, expired set)                                                     *)
+CallEntry == /\ call.pc \in {"idle", "done"} /\ call.n < MaxCalls /\ tmu = 0
              /\ LET late == deadline = "past"
                     rec  == "NoEntryCheck" \notin Dev /\ late /\ ~expired IN
                 /\ expired' = (expired \/ rec) /\ armed' = (armed /\ ~rec)
-                /\ IF expired' THEN call' = [pc |-> "done", late |-> late] /\ res' = "deadline" /\ UNCHANGED callLock
-                   ELSE callLock = 0 /\ callLock' = CALL /\ call' = [pc |-> "locked", late |-> late] /\ UNCHANGED res
-             /\ UNCHANGED <<deadline, inflight, nextId, cancelled, sets, tmu, badCancel>>
-(* inside the lock the expired flag is looked at once more (netconn.go read()/Write); then the call does its I/O and returns *)
-CallEnd == /\ call.pc = "locked" /\ callLock' = 0 /\ call' = [call EXCEPT !.pc = "done"]
-           /\ res' = IF expired THEN "deadline" ELSE IF cancelled THEN "cancelled" ELSE "ok"
-           /\ UNCHANGED <<deadline, armed, inflight, nextId, expired, cancelled, sets, tmu, badCancel>>
-Next == (\E v \in {"none", "past", "future"} : SetDeadline(v)) \/ Fire \/ Tick
-        \/ (\E c \in inflight : CbEnter(c) \/ CbCheck(c) \/ CbMark(c)) \/ CallStart \/ CallEnd
+                /\ IF expired' /\ "NoEntryCheck" \notin Dev
+                     THEN call' = [pc |-> "done", late |-> late, n |-> call.n + 1] /\ res' = "deadline"
+                     ELSE call' = [pc |-> "entered", late |-> late, n |-> call.n + 1] /\ res' = "none"
+             /\ UNCHANGED <<deadline, inflight, nextId, cancelled, callLock, sets, tmu, badCancel>>
+(* forceLock: waits for a callback that holds the call lock for its brief marking *)
+CallLock == /\ call.pc = "entered" /\ callLock = 0 /\ callLock' = CALL /\ call' = [call EXCEPT !.pc = "locked"]
+            /\ UNCHANGED <<deadline, armed, inflight, nextId, expired, cancelled, sets, tmu, res, badCancel>>
+(* inside the lock the expired flag is looked at once more (netconn.go read() -- once per message it opens -- and Write) *)
+CallCheck == /\ call.pc \in {"locked", "checked"}
+             /\ IF expired THEN call' = [call EXCEPT !.pc = "ret"] /\ res' = "deadline"
+                ELSE call' = [call EXCEPT !.pc = "checked"] /\ UNCHANGED res
+             /\ UNCHANGED <<deadline, armed, inflight, nextId, expired, cancelled, callLock, sets, tmu, badCancel>>
+(* the I/O itself, under the direction's context: it fails if a callback cancelled that context (the connection is closed with it) *)
+CallEnd == /\ call.pc = "checked" /\ call' = [call EXCEPT !.pc = "ret"]
+           /\ res' = IF cancelled THEN "cancelled" ELSE "ok"
+           /\ UNCHANGED <<deadline, armed, inflight, nextId, expired, cancelled, callLock, sets, tmu, badCancel>>
+CallUnlock == /\ call.pc = "ret" /\ callLock' = 0 /\ call' = [call EXCEPT !.pc = "done"]
+              /\ UNCHANGED <<deadline, armed, inflight, nextId, expired, cancelled, sets, tmu, res, badCancel>>
+Next == (\E v \in Deadlines : SetDeadline(v)) \/ Fire \/ Tick
+        \/ (\E c \in inflight : CbEnter(c) \/ CbCheck(c) \/ CbMark(c))
+        \/ CallEntry \/ CallLock \/ CallCheck \/ CallEnd \/ CallUnlock
 Spec == Init /\ [][Next]_vars
 ExpiredOnlyWhilePast == expired => deadline = "past"          \* "... until the deadline is reset"
 (* "... leaving the connection usable": a context is cancelled only for a call that was active when its deadline passed -- never *)
 (* for a callback's own brief hold of the call lock, never for a call that started after the deadline had passed                *)
 IdleNeverCancels == ~badCancel
-(* "a deadline that passes while no call is active makes subsequent calls fail with a deadline error" *)
-LateCallFails == (call.pc = "done" /\ call.late /\ sets <= 1) => res = "deadline"
+(* "a deadline that passes while no call is active makes subsequent calls fail with a deadline error": a call that started after *)
+(* its deadline had passed returns that error unless the deadline was reset under it                                             *)
+LateCallFails == (call.pc \in {"ret", "done"} /\ call.late /\ sets <= 1) => res = "deadline"
+(* a deadline error is only ever reported for a deadline that has passed and has not been reset since the call looked *)
+DeadlineErrorOnlyWhenPassed == [][(res' = "deadline" /\ res # "deadline") => deadline = "past"]_vars
+(* the call lock is held by the call exactly while it is between its lock and its unlock *)
+CallLockConsistent == (callLock = CALL) <=> (call.pc \in {"locked", "checked", "ret"})
+MutexHolders == /\ (tmu # 0 /\ "NoTimerMutex" \notin Dev => \E c \in inflight : c.id = tmu /\ c.pc \in {"check", "mark"})
+                /\ (callLock \notin {0, CALL} => \E c \in inflight : c.id = callLock /\ c.pc = "mark")
 =============================================================================
